@@ -54,6 +54,25 @@ var mSrcAddrs = []string{"git::https://example.com/p0.git", "git::https://exampl
 	// percent-escaped dot segments are literal sub-path characters: the lookup stays inside the package (seed C18-d)
 	"git::https://example.com/p0.git//%2e%2e/%2e%2e", "git::https://example.com/p1.git//m/%2E%2E/%2e%2e/%2e%2e/x"}
 
+// real-source addresses whose sub-path is a single segment: the boundary of the sub-path definition (".." and
+// "." are refused, "..." and "a" are names). One ".." from the manifest and one from the lookup address would
+// join to "../..", the parent of the bundle root (seed C18-g)
+var mSingleSegSrc = []string{"git::https://example.com/p0.git//..", "git::https://example.com/p1.git//..", "https://example.com/a2.tar.gz//..", "git::https://example.com/p0.git//.",
+	"git::https://example.com/p0.git//...", "git::https://example.com/p1.git//a", "https://example.com/a2.tar.gz//a", "git::https://example.com/p0.git//..?ref=v1"}
+
+// single-segment sub-paths of the registry address a lookup is made with
+var mSingleSegSubs = []string{"..", ".", "...", "a"}
+
+// bundleCorpus: fixed manifests that run with every seed, after the generated ones
+func bundleCorpus() []*jManifest {
+	var out []*jManifest
+	pk := []jPkg{{Source: mPkgAddrs[0], Local: mDirNames[0]}, {Source: mPkgAddrs[1], Local: mDirNames[1]}, {Source: mPkgAddrs[2], Local: mDirNames[2]}}
+	for _, src := range mSingleSegSrc {
+		out = append(out, &jManifest{Format: 1, Packages: pk, Registry: []jReg{{Source: mRegAddrs[1], Versions: map[string]jVer{"1.0.0": {Source: src}, "1.2.3": {Source: mSrcAddrs[1]}}}}})
+	}
+	return out
+}
+
 // relative paths for derived lookup addresses: 0..8 leading "../", then nothing, one name (even depths)
 // or two names (depths 1 and 8)
 type derivRel struct {
@@ -120,6 +139,9 @@ func genManifest(r *Rng) *jManifest {
 			jv := jVer{Source: mSrcAddrs[r.Intn(3)]}
 			if !valid && r.Chance(30) {
 				jv.Source = r.Pick(mSrcAddrs)
+			}
+			if r.Chance(7) {
+				jv.Source = r.Pick(mSingleSegSrc)
 			}
 			if r.Chance(30) {
 				jv.Deprecation = &jDep{Version: v, Reason: "old", Link: "https://example.com/why"}
@@ -205,6 +227,74 @@ func encManifest(m *jManifest) (string, string) {
 	return fmt.Sprintf("%d;%s;%s", m.Format, j(ps), j(rs)), j(orc)
 }
 
+// bundleLookupTable: the answers of every forward lookup and of the reverse lookup of every package
+// directory, rendered relative to root (the directory name the bundle was opened with), in a fixed order
+func bundleLookupTable(b *sourcebundle.Bundle, root string) []string {
+	var out []string
+	rel := func(lp string, err error) string {
+		if err != nil {
+			return "error"
+		}
+		r, rerr := filepath.Rel(root, lp)
+		if rerr != nil {
+			return "unrelated:" + lp
+		}
+		return r
+	}
+	var pkgs []string
+	byName := map[string]sourceaddrs.RemotePackage{}
+	for _, p := range b.RemotePackages() {
+		pkgs = append(pkgs, p.String())
+		byName[p.String()] = p
+	}
+	sortStrings(pkgs)
+	for _, name := range pkgs {
+		p := byName[name]
+		for _, sub := range []string{"", "m", "m/n"} {
+			lp, err := b.LocalPathForRemoteSource(p.SourceAddr(sub))
+			out = append(out, fmt.Sprintf("LocalPathForRemoteSource(%s) = %s", p.SourceAddr(sub), rel(lp, err)))
+			if err == nil {
+				src, rerr := b.SourceForLocalPath(filepath.Join(root, rel(lp, nil)))
+				if rerr != nil {
+					out = append(out, fmt.Sprintf("SourceForLocalPath(<root>/%s) = error", rel(lp, nil)))
+				} else {
+					out = append(out, fmt.Sprintf("SourceForLocalPath(<root>/%s) = %s", rel(lp, nil), src))
+				}
+			}
+		}
+	}
+	var regs []string
+	for _, rp := range b.RegistryPackages() {
+		regs = append(regs, rp.String())
+	}
+	sortStrings(regs)
+	for _, name := range regs {
+		for _, sub := range []string{"", "k"} {
+			regStr := name
+			if sub != "" {
+				regStr += "//" + sub
+			}
+			rs, err := sourceaddrs.ParseRegistrySource(regStr)
+			if err != nil {
+				continue
+			}
+			var vs []string
+			for _, v := range b.RegistryPackageVersions(rs.Package()) {
+				vs = append(vs, v.String())
+			}
+			sortStrings(vs)
+			for _, vstr := range vs {
+				v, _ := versions.ParseVersion(vstr)
+				lp, err := b.LocalPathForRegistrySource(rs, v)
+				out = append(out, fmt.Sprintf("LocalPathForRegistrySource(%s, %s) = %s", regStr, vstr, rel(lp, err)))
+				lp, err = b.LocalPathForSource(rs.Versioned(v))
+				out = append(out, fmt.Sprintf("LocalPathForSource(%s) = %s", rs.Versioned(v), rel(lp, err)))
+			}
+		}
+	}
+	return out
+}
+
 func sortStrings(xs []string) {
 	for i := 1; i < len(xs); i++ {
 		for j := i; j > 0 && xs[j] < xs[j-1]; j-- {
@@ -225,7 +315,7 @@ func openDirSafe(dir string) (b *sourcebundle.Bundle, err error, pan interface{}
 
 func init() {
 	lanes["bundle"] = func(cfg *Config, rep *Report) {
-		rep.Rule = "manifest documents generated field-wise (format number, 0..3 packages over 18 directory names (one a string prefix of another) incl. '..', '.', '', names with separators, 10 address strings incl. invalid ones and two spellings of one package, metadata; 0..2 registry packages x 0..2 versions x source addresses x deprecations), 55% valid stream / 45% single-field mutations; for every opened bundle all remote/registry lookups, lookups of addresses derived with ResolveRelativeSource / ResolveRelativeFinalSource from the bundle's registry and remote sources and 16 relative paths with 0..8 leading '../' (oracle only), and SourceForLocalPath over 17 path shapes (inside a package, aliases, '..' detours, outside, the root, relative); non-trivial = opened or refused for a directory-name reason; distinct by manifest"
+		rep.Rule = "manifest documents generated field-wise (format number, 0..3 packages over 18 directory names (one a string prefix of another) incl. '..', '.', '', names with separators, 10 address strings incl. invalid ones and two spellings of one package, metadata; 0..2 registry packages x 0..2 versions x source addresses x deprecations), 55% valid stream / 45% single-field mutations; 7% of the registry versions name a real source whose sub-path is a single segment ('..', '.', '...', 'a'), plus a fixed corpus of such manifests, and registry lookups are also made with those single-segment sub-paths; every opened bundle is opened once more through a name with a symbolic link among its components (<case>/lnk -> '.'): lookup answers relative to the root that was passed must equal those of the plain opening (C09) and paths spelled under the passed root must translate to addresses and back (C18); for every opened bundle all remote/registry lookups, lookups of addresses derived with ResolveRelativeSource / ResolveRelativeFinalSource from the bundle's registry and remote sources and 16 relative paths with 0..8 leading '../' (oracle only), and SourceForLocalPath over 17 path shapes (inside a package, aliases, '..' detours, outside, the root, relative); non-trivial = opened or refused for a directory-name reason; distinct by manifest"
 		r := NewRng(cfg.Seed)
 		n := cfg.N
 		reqs := make([]string, n)
@@ -235,6 +325,14 @@ func init() {
 		for i := range mans {
 			mans[i] = genManifest(r)
 		}
+		// the fixed corpus takes extra slots after the generated manifests
+		for _, m := range bundleCorpus() {
+			mans = append(mans, m)
+			reqs = append(reqs, "")
+			impl = append(impl, "")
+			human = append(human, nil)
+		}
+		n = len(mans)
 		// exact replay (-case): the recorded manifest ({"manifest": ...}) takes an extra last slot and runs first, alone
 		replayIdx := -1
 		{
@@ -352,13 +450,14 @@ func init() {
 				}
 				for _, rp := range b.RegistryPackages() {
 					for _, v := range b.RegistryPackageVersions(rp) {
-						for _, sub := range []string{"", "k"} {
+						for _, sub := range append([]string{"", "k"}, mSingleSegSubs...) {
 							regStr := rp.String()
 							if sub != "" {
 								regStr += "//" + sub
 							}
 							rs, perr := sourceaddrs.ParseRegistrySource(regStr)
 							if perr != nil {
+								// a refused lookup address ("//..", "//.") is fine
 								continue
 							}
 							lp, err := b.LocalPathForRegistrySource(rs, v)
@@ -477,6 +576,51 @@ func init() {
 								if res, err := sourceaddrs.ResolveRelativeFinalSource(base, loc); err == nil {
 									if lp, err := b.LocalPathForSource(res); err == nil && !inside(lp) {
 										fail(fmt.Sprintf("LocalPathForSource(%s) = %s, %s %s; the address is ResolveRelativeFinalSource(%s, %s)", res, lp, notInside(lp), root, base, rel))
+									}
+								}
+							}
+						}
+					}
+				}
+				// the same directory opened through a name with a symbolic link among its components
+				// (<case>/lnk -> ".", inside the scratch directory): every lookup answer, taken relative to the
+				// root that was passed to OpenDir, is the one the bundle opened by the plain name gives (C09:
+				// "the same answer to every lookup relative to its root"), and paths spelled under the passed
+				// root translate to addresses and back (C18) (seed C09-g: the root kept under its resolved name)
+				{
+					lnk := filepath.Join(filepath.Dir(root), "lnk")
+					if os.Symlink(".", lnk) == nil {
+						lroot := filepath.Join(lnk, "bundle")
+						bl, lerr, lpan := openDirSafe(lroot)
+						switch {
+						case lpan != nil:
+							rep.AddOracle(OracleFailure{Property: "C19", Lane: "bundle", What: fmt.Sprintf("OpenDir through a symbolic link panics: %v", lpan), Input: in, ReqIdx: i + 1})
+						case lerr != nil:
+							rep.AddOracle(OracleFailure{Property: "C09", Lane: "bundle", What: fmt.Sprintf("a bundle directory that opens by its plain name %s is refused when opened as %s (lnk is a symbolic link to '.'): %v", root, lroot, lerr), Input: in, ReqIdx: i + 1})
+						default:
+							rep.Count("open:through-symlinked-component")
+							plain, linked := bundleLookupTable(b, root), bundleLookupTable(bl, lroot)
+							for k := range plain {
+								if k < len(linked) && plain[k] != linked[k] {
+									rep.AddOracle(OracleFailure{Property: "C09", Lane: "bundle", What: fmt.Sprintf("the bundle opened as %s (lnk is a symbolic link to '.', so this is the directory %s) answers, relative to the root it was opened with, %s; the bundle opened by the plain name answers %s", lroot, root, linked[k], plain[k]), Input: in, ReqIdx: i + 1})
+									break
+								}
+							}
+							for _, p := range bl.RemotePackages() {
+								pd, err := b.LocalPathForRemoteSource(p.SourceAddr(""))
+								if err != nil {
+									continue
+								}
+								for _, tail := range []string{"", "/x/y"} {
+									lp := filepath.Join(lroot, filepath.Base(pd)) + tail
+									src, err := bl.SourceForLocalPath(lp)
+									if err != nil {
+										fail(fmt.Sprintf("path %s, inside a package directory and spelled under the root the bundle was opened with (%s; lnk is a symbolic link to '.'), is reported as not belonging to the bundle: %v", lp, lroot, err))
+										break
+									}
+									if back, err := bl.LocalPathForSource(src); err != nil || back != lp {
+										fail(fmt.Sprintf("translating %s (spelled under the root the bundle was opened with, %s) to an address (%s) and back gives %q (err %v)", lp, lroot, src, back, err))
+										break
 									}
 								}
 							}
